@@ -35,8 +35,22 @@ impl Processor {
     }
 
     pub fn load(&self, main: &Locator) -> anyhow::Result<ModuleSet> {
-        let mods = oal_compiler::module::load(&mut self.loader(), main)?;
-        Ok(mods)
+        match oal_compiler::module::load(&mut self.loader(), main) {
+            Ok(mods) => Ok(mods),
+            // Errors raised by the module loader itself (import not found, import cycle)
+            // have not been reported by the parsing and compilation steps.
+            Err(err) => match err.downcast::<oal_compiler::errors::Error>() {
+                Ok(err) => {
+                    let span = match err.span() {
+                        Some(s) => s.clone(),
+                        None => Span::new(main.clone(), 0..0),
+                    };
+                    self.report(span, &err)?;
+                    Err(anyhow!("loading failed"))
+                }
+                Err(err) => Err(err),
+            },
+        }
     }
 
     /// Evaluates a program.
